@@ -30,6 +30,9 @@ pub enum Req {
     Auth,
     /// PUBREL for the most recent QoS 2 id whose PUBREC has been seen
     Rel,
+    /// MQTT 5: the PUBREL sent last, once more (it may still be in the handler pipeline: both are
+    /// answered with a PUBCOMP, the second one possibly "packet identifier not found")
+    RelAgain,
 }
 
 #[derive(Debug, Clone, Copy, PartialEq, Eq)]
@@ -94,6 +97,7 @@ pub async fn run_case(case: &Case, ch: &mut dyn Choose) -> Outc {
     let mut bytes_per_req: Vec<Vec<u8>> = Vec::new();
     let mut next_id: u16 = 10;
     let mut q2_ids: VecDeque<u16> = VecDeque::new();
+    let mut last_rel: Option<u16> = None;
     for (i, r) in case.reqs.iter().enumerate() {
         let gated = case.ready_mask >> i & 1 == 0;
         next_id += 1;
@@ -136,6 +140,13 @@ pub async fn run_case(case: &Case, ch: &mut dyn Choose) -> Outc {
             Req::Rel => {
                 let Some(id2) = q2_ids.pop_front() else { continue };
                 app.proto_plans.borrow_mut().push_back(ProtoPlan { gated, answer: ProtoAnswer::Ack });
+                expected.push(("PUBCOMP", id2));
+                last_rel = Some(id2);
+                R::PubRel { pid: id2, code, props: None }
+            }
+            Req::RelAgain => {
+                let Some(id2) = last_rel.filter(|_| v5) else { continue };
+                app.proto_plans.borrow_mut().push_back(ProtoPlan { gated: false, answer: ProtoAnswer::Ack });
                 expected.push(("PUBCOMP", id2));
                 R::PubRel { pid: id2, code, props: None }
             }
@@ -405,6 +416,9 @@ fn long_case(seed: u64, i: u64, quick: bool) -> (Case, Rng) {
     let role = *rng.pick(&Role::ALL);
     let mut kinds = kinds_for(role);
     kinds.push(Req::Rel);
+    if role.is_v5() {
+        kinds.push(Req::RelAgain);
+    }
     let len = 4 + rng.usize(if quick { 16 } else { 36 });
     let reqs: Vec<Req> = (0..len).map(|_| *rng.pick(&kinds)).collect();
     let case = Case { role, reqs, ready_mask: rng.next() as u32, shape: *rng.pick(&[Shape::OneWrite, Shape::PerPacket, Shape::SplitMid]), backpressure: rng.chance(1, 3) };
